@@ -1,4 +1,5 @@
 import ComposeVerif.Model.Val
+import ComposeVerif.Model.Paths
 /-!
 # Model of `loader/include.go`  (property C06: include ≡ paste of the resolved included model)
 
@@ -41,6 +42,11 @@ instance : Monad Out where
 def isOk {α} : Out α → Bool
   | .ok _ => true
   | _ => false
+
+/-- the error class, if the outcome is an error -/
+def errOf {α} : Out α → Option String
+  | .err e => some e
+  | _ => none
 end Out
 
 /-! ## structural equality of trees (`reflect.DeepEqual` on canonically ordered trees) -/
@@ -65,67 +71,50 @@ def veqM : List (String × Val) → List (String × Val) → Bool
   | _, _ => false
 end
 
-/-! ## file paths (`path/filepath`, unix) -/
+/-! ## file paths (`path/filepath`, unix)
 
-def isAbs (p : String) : Bool := p.startsWith "/"
+`Clean`, `Join`, `IsAbs` are the C12 model (`Model/Paths.lean`, on `List Char`, with `clean_idempotent`,
+`join_associative` … proved there); `Dir` and `Rel` are added here on the same representation.  The `String`
+wrappers keep the rest of the model readable; everything reduces in the kernel (`by decide` witnesses in `Neg/C06.lean`). -/
 
-/-- the segment stack of `Clean`: `.` and empty segments vanish, `..` pops (or stays, for relative paths) -/
-def cleanSegs (rooted : Bool) : List String → List String → List String
-  | acc, [] => acc.reverse
-  | acc, s :: rest =>
-    if s = "" ∨ s = "." then cleanSegs rooted acc rest
-    else if s = ".." then
-      match acc with
-      | [] => if rooted then cleanSegs rooted [] rest else cleanSegs rooted [".."] rest
-      | a :: acc' => if a = ".." then cleanSegs rooted (".." :: a :: acc') rest else cleanSegs rooted acc' rest
-    else cleanSegs rooted (s :: acc) rest
+abbrev Str := CV.Str
 
-def segs (p : String) : List String := p.splitOn "/"
+def isAbs (p : String) : Bool := Paths.isAbs p.toList
 
 /-- `filepath.Clean` -/
-def clean (p : String) : String :=
-  if p = "" then "." else
-  let rooted := isAbs p
-  let out := cleanSegs rooted [] (segs p)
-  let body := "/".intercalate out
-  if rooted then "/" ++ body else if body = "" then "." else body
+def clean (p : String) : String := String.ofList (Paths.clean p.toList)
 
 /-- `filepath.Join(a, b)`: empty elements are ignored, the result is cleaned -/
-def join (a b : String) : String :=
-  if a = "" ∧ b = "" then ""
-  else if a = "" then clean b
-  else if b = "" then clean a
-  else clean (a ++ "/" ++ b)
+def join (a b : String) : String := String.ofList (Paths.join a.toList b.toList)
+
+/-- `filepath.Dir` on characters: `Clean` of everything up to and including the last separator -/
+def dirC (p : Str) : Str := Paths.clean ((p.reverse.dropWhile (fun c => c ≠ '/')).reverse)
 
 /-- `filepath.Dir` -/
-def dir (p : String) : String :=
-  match (segs p).reverse with
-  | [] => "."
-  | _ :: initRev =>
-    -- everything up to and including the last separator
-    if initRev.isEmpty then "." else clean ("/".intercalate initRev.reverse ++ "/")
+def dir (p : String) : String := String.ofList (dirC p.toList)
 
-def stripCommon : List String → List String → List String × List String
+def stripCommon : List Str → List Str → List Str × List Str
   | a :: as, b :: bs => if a = b then stripCommon as bs else (a :: as, b :: bs)
   | as, bs => (as, bs)
 
-def relSegs (p : String) : List String :=
-  let c := clean p
-  if c = "." then [] else (segs c).filter (· ≠ "")
+def relSegs (c : Str) : List Str :=
+  if c = Paths.dot then [] else (Paths.splitSlash c).filter (fun s => s ≠ [])
 
-/-- `filepath.Rel(base, targ)`; `none` = the error "can't make … relative to …" -/
-def rel (base targ : String) : Option String :=
-  let b := clean base
-  let t := clean targ
-  if b = t then some "." else
-  if isAbs b ≠ isAbs t then none else
+/-- `filepath.Rel(base, targ)` on characters; `none` = the error "can't make … relative to …" -/
+def relC (base targ : Str) : Option Str :=
+  let b := Paths.clean base
+  let t := Paths.clean targ
+  if b = t then some Paths.dot else
+  if Paths.isAbs b ≠ Paths.isAbs t then none else
   -- Go normalises a base of "." to "" but leaves a target of "." alone (`Rel("a", ".") = "../."`)
-  let (br, tr) := stripCommon (relSegs b) (if t = "." then ["."] else relSegs t)
-  match br with
-  | ".." :: _ => none
-  | _ =>
-    let out := br.map (fun _ => "..") ++ tr
-    some (if out.isEmpty then "." else "/".intercalate out)
+  let st := stripCommon (relSegs b) (if t = Paths.dot then [Paths.dot] else relSegs t)
+  if st.1.head? = some Paths.dotdot then none
+  else
+    let out := st.1.map (fun _ => Paths.dotdot) ++ st.2
+    some (if out.isEmpty then Paths.dot else Paths.joinSlash out)
+
+/-- `filepath.Rel(base, targ)` -/
+def rel (base targ : String) : Option String := (relC base.toList targ.toList).map String.ofList
 
 /-! ## environments (`types.Mapping`) -/
 
@@ -193,13 +182,14 @@ def loadIncludeConfig : Option Val → Out (List IncCfg)
 
 /-! ## `importResources` -/
 
-/-- the loop `for name, a := range from` of `importResource` -/
-def importEntries : KVs → KVs → Out KVs
+/-- the loop `for name, a := range from` of `importResource`; `same` is the test that lets an already defined
+name pass (`reflect.DeepEqual`, or — inside `ApplyInclude` — `sameResource`) -/
+def importEntries (same : Val → Val → Bool) : KVs → KVs → Out KVs
   | [], to => .ok to
   | (name, a) :: rest, to =>
     match lookup name to with
-    | some c => if veq a c then importEntries rest to else .err "conflict"
-    | none => importEntries rest (to ++ [(name, a)])
+    | some c => if same a c then importEntries same rest to else .err "conflict"
+    | none => importEntries same rest (to ++ [(name, a)])
 
 /-- the section of the including model the resources go to: absent or null = empty, a mapping, or neither -/
 def targetSection (key : String) (target : KVs) : Option KVs :=
@@ -209,7 +199,7 @@ def targetSection (key : String) (target : KVs) : Option KVs :=
   | some (.map to) => some to
   | some _ => none
 
-def importResource (source target : KVs) (key : String) : Out KVs :=
+def importResource (same : String → Val → Val → Bool) (source target : KVs) (key : String) : Out KVs :=
   match lookup key source with
   | none => .ok target
   | some .null => .ok target
@@ -218,16 +208,20 @@ def importResource (source target : KVs) (key : String) : Out KVs :=
     | none => .err "notMapping"
     | some to =>
       match frm with
-      | .map f => (importEntries f to).bind fun to' => .ok (insert key (.map to') target)
-      | _ => .panic "importResource:from.(map[string]any)"
+      | .map f => (importEntries (same key) f to).bind fun to' => .ok (insert key (.map to') target)
+      | _ => .err "notMapping"
 
 def resourceKinds : List String := ["services", "volumes", "networks", "secrets", "configs"]
 
-def importKinds (source : KVs) : List String → KVs → Out KVs
+def importKinds (same : String → Val → Val → Bool) (source : KVs) : List String → KVs → Out KVs
   | [], target => .ok target
-  | k :: ks, target => (importResource source target k).bind (importKinds source ks)
+  | k :: ks, target => (importResource same source target k).bind (importKinds same source ks)
 
-def importResources (source target : KVs) : Out KVs := importKinds source resourceKinds target
+def importResources (same : String → Val → Val → Bool) (source target : KVs) : Out KVs :=
+  importKinds same source resourceKinds target
+
+/-- `reflect.DeepEqual` in every section: the stand-alone `importResources(source, target)` -/
+def deepEqual : String → Val → Val → Bool := fun _ a c => veq a c
 
 /-! ## the world `ApplyInclude` runs in -/
 
@@ -242,6 +236,8 @@ structure World where
   envFromFile : Env → List String → Out Env
   /-- `loadYamlModel` of the included project: working dir, local-loader dir, files, environment, `included` -/
   loadModel : String → String → List String → Env → List String → Out KVs
+  /-- `paths.ResolveRelativePaths` of one resource `section.name` against a base directory (`none` = error / panic) -/
+  resolveRes : String → String → Val → Option Val := fun _ _ v => some v
 
 def osAbs (W : World) (p : String) : String := if isAbs p then clean p else join W.cwd p
 def statDir (W : World) (p : String) : Bool := W.isDir (osAbs W p)
@@ -304,12 +300,25 @@ def includeEnv (W : World) (wd projDir : String) (env : Env) (ef : List String) 
   (envFiles W wd projDir ef).bind fun efs =>
   (W.envFromFile env efs).bind fun fromFile => .ok (envMerge env fromFile)
 
+/-- the directory relative `project_directory` / `env_file` entries are joined to: `workingDir` when it is
+absolute; when it is relative (the including file is itself included) the working directory of the local resource
+loader, which is the including project's directory in absolute form -/
+def baseDir (wd L : String) : String :=
+  if isAbs wd then wd else if L = "" then wd else L
+
+/-- `sameResource`: deeply equal, or deeply equal once the relative paths of both definitions are resolved against
+the including project's directory (the same file reached through two include routes spells them differently) -/
+def sameResource (W : World) (base : String) : String → Val → Val → Bool := fun key a c =>
+  veq a c || match W.resolveRes base key a, W.resolveRes base key c with
+    | some x, some y => veq x y
+    | _, _ => false
+
 /-- body of `for _, r := range includeConfig` -/
 def includeOne (W : World) (wd L : String) (env : Env) (chain : List String) (model : KVs) (r : IncCfg) : Out KVs :=
-  (plan W wd L chain r).bind fun pl =>
-  (includeEnv W wd pl.projDir env r.envFile).bind fun env' =>
+  (plan W (baseDir wd L) L chain r).bind fun pl =>
+  (includeEnv W (baseDir wd L) pl.projDir env r.envFile).bind fun env' =>
   (W.loadModel pl.relwd pl.projDir pl.paths env' chain).bind fun imported =>
-  importResources imported model
+  importResources (sameResource W (baseDir wd L)) imported model
 
 def includeAll (W : World) (wd L : String) (env : Env) (chain : List String) : List IncCfg → KVs → Out KVs
   | [], model => .ok model
